@@ -76,7 +76,7 @@ func newC19Coordinator(h host.Host, c comm.Communication) *tss.Coordinator {
 	return co
 }
 
-// c19SidLog collects the session ids of the signing processes that were created and released.
+// c19SidLog collects the session ids the signing processes (and the coordinator running them) log under.
 type c19SidLog struct {
 	mu   sync.Mutex
 	sids []string
@@ -85,10 +85,19 @@ type c19SidLog struct {
 func (l *c19SidLog) Write(p []byte) (int, error) {
 	var m map[string]interface{}
 	if json.Unmarshal(p, &m) == nil {
-		if s, ok := m["message"].(string); ok && s == "Stopping tss process." {
-			sid, _ := m["SessionID"].(string)
+		// a session id is recognised by the structured field the signing process (and the coordinator) attach to their
+		// log lines, never by the wording of a message
+		if sid, ok := m["SessionID"].(string); ok {
 			l.mu.Lock()
-			l.sids = append(l.sids, sid)
+			seen := false
+			for _, x := range l.sids {
+				if x == sid {
+					seen = true
+				}
+			}
+			if !seen {
+				l.sids = append(l.sids, sid)
+			}
 			l.mu.Unlock()
 		}
 	}
